@@ -1,4 +1,5 @@
 import BoxoModel.C43.Lemmas
+import BoxoModel.Gen.C43
 /-!
 # C43 — Routing iterator combinators obey list laws
 
@@ -354,6 +355,36 @@ theorem c43_limit_any_src_calls (lim : Int) (hl : lim > 0) (s : Shape) : ∀ (fu
         simp [mu, source] at this hk ⊢
         omega
 
+/-- T-gen tie: the guard of `LimitIter.Next`, REGENERATED from limit.go on every run (`Gen.C43.limitStop`),
+is the guard of the model's limit layer … -/
+theorem c43_gen_limit_guard (lim : Int) (cnt : Nat) :
+    Gen.C43.limitStop lim cnt = decide (lim > 0 ∧ (cnt : Int) ≥ lim) := by
+  simp [Gen.C43.limitStop]
+
+/-- … so the model's `Next` on a limit layer returns false without touching the inner iterator exactly
+when the regenerated guard holds, and otherwise performs one inner `Next`. -/
+theorem c43_gen_limit_next (lim : Int) (s : Shape) (l : LSt) (i : State s) :
+    (Gen.C43.limitStop lim l.count = true → next (.limit lim s) (l, i) = ((l, i), false)) ∧
+    (Gen.C43.limitStop lim l.count = false →
+      (next (.limit lim s) (l, i)).1.2 = (next s i).1 ∧ (next (.limit lim s) (l, i)).2 = (next s i).2) := by
+  rw [c43_gen_limit_guard]
+  constructor
+  · intro h
+    have h' : lim > 0 ∧ (l.count : Int) ≥ lim := by simpa using h
+    simp [next, h']
+    rfl
+  · intro h
+    have h' : ¬ (lim > 0 ∧ (l.count : Int) ≥ lim) := by simpa using h
+    cases hn : (next s i).2 <;> simp [next, h', hn]
+
+/-- T-gen tie: the end test of `SliceIter.Next` (regenerated from slice.go), evaluated at the index `i`
+reached after `i` successful reads of `xs`, is the model's "no element left" test on `rest = xs.drop i`. -/
+theorem c43_gen_slice_end (xs : List Int) (i : Nat) :
+    Gen.C43.sliceEnd i xs.length = (xs.drop i).isEmpty := by
+  simp only [Gen.C43.sliceEnd]
+  rw [Bool.eq_iff_iff]
+  simp [List.isEmpty_iff, List.drop_eq_nil_iff]
+
 /-! Non-vacuity: concrete, non-trivial instances (a depth-3 composition with a positive limit). -/
 example : (readAll (.limit 2 (.filter (fun x => x % 2 == 0) (.map (· + 1) .src)))
     (fresh [1, 2, 3, 4, 5, 6] _)).2 = [2, 4] := by decide
@@ -370,5 +401,7 @@ example : (next (.filter (fun x => x % 2 == 0) .src) (({} : LSt), fresh [1, 3, 4
 example : let sh := Shape.limit 2 (.filter (fun x => x % 2 == 0) (.map (· + 1) .src))
     let r := drain sh 7 (fresh [1, 2, 3, 4, 5, 6] sh)
     (((0 + r.2.length : Nat) : Int) ≥ 2) ∧ mu sh r.1 = 6 ∧ (source sh r.1).nexts = 3 := by decide
+example : Gen.C43.limitStop 2 2 = true ∧ Gen.C43.limitStop 2 1 = false ∧ Gen.C43.limitStop 0 5 = false ∧
+    Gen.C43.limitStop (-1) 5 = false := by decide
 
 end C43
